@@ -322,12 +322,14 @@ P("C16", "The on-disk format stays readable",
 
 
 P("C05", "The item store returns exactly what was last written",
-  "bounded model checking (Kani/CBMC) of single API calls over a symbolic model store; post-state read from the raw store",
-  "Bounded model checking of every item-store mutator and reader (one call from an arbitrary bounded pre-state, all f32 bit patterns); histories are covered by the inductive step argument.",
+  "bounded model checking (Kani/CBMC) of single API calls over a symbolic model store, post-state read from the raw store; MIR symbolic execution (z3) of the iterators, is_empty and DotProduct::preprocess over a key-value world",
+  "Bounded model checking of every item-store mutator and reader (one call from an arbitrary bounded pre-state, all f32 bit patterns); iteration, emptiness and the build-time header rewrite of DotProduct are decided by the MIR executor (E2); histories are covered by the inductive step argument.",
   stubs_and_models=STD_STUBS + MODELS,
   functions_encoded=["Writer::add_item", "Writer::append_item", "Writer::del_item", "Writer::clear", "Writer::item_vector",
-                     "Writer::contains_item", "Writer::item_indices", "Reader::item_vector", "Reader::contains_item", "NodeCodec (leaf)"],
-  bounds={"store": "<= 6 entries (3-5 arbitrary pre-existing)", "dimension": "2 (f32), 3 (quantised)", "ids": "whole u32 at key level, < 64 inside bitmaps"},
+                     "Writer::contains_item", "Writer::item_indices", "Reader::item_vector", "Reader::contains_item", "NodeCodec (leaf)",
+                     "Writer::iter", "Reader::iter", "ItemIter::next", "Writer::is_empty", "Reader::is_empty", "DotProduct::preprocess"],
+  bounds={"store": "<= 6 entries (3-5 arbitrary pre-existing)", "dimension": "2 (f32), 3 (quantised); 1..=300 symbolic in the E2 obligations",
+          "ids": "whole u32 at key level, < 64 inside bitmaps"},
   outside_claim=["commit/abort visibility (LMDB)", "dimensions beyond the bound", "the SSE to_vec path of quantised vectors (see C12)"],
   assumptions=["environment models are faithful for the calls arroy makes"])
 P("C06", "A stale or never-built index is never silently served",
@@ -344,7 +346,7 @@ P("C19", "Rejected calls have no effect",
   "Bounded model checking: wrong-length add/append/by_vector, non-monotone append and delete of an absent id return the documented error/false and the store is byte-identical (no write attempted).",
   stubs_and_models=STD_STUBS + MODELS,
   functions_encoded=["Writer::add_item", "Writer::append_item", "Writer::del_item", "QueryBuilder::by_vector", "QueryBuilder::by_item"],
-  bounds={"store": "<= 6 entries", "dimension": "1..=4", "vector length": "0..=6"},
+  bounds={"store": "<= 6 entries", "dimension": "1..=4 (quantised: 3)", "vector length": "0..=6 (quantised: 5); by_vector in E2: dimension 1..=300, length 0..=400"},
   outside_claim=["LMDB's actual MDB_APPEND behaviour (model contract)"],
   assumptions=["environment models are faithful for the calls arroy makes"])
 P("C15", "Build options are honoured: tree count and bucket capacity",
@@ -398,7 +400,7 @@ P("C01", "Every tree of a built index covers exactly the live items, each once",
 P("C13", "Parallel tree updates never collide, whatever the thread schedule",
   "symbolic execution of the rustc MIR of ConcurrentNodeIds::new/next into per-path thread summaries (atomic accesses as events), then one SMT formula over symbolic timestamps and reads-from relations decided by z3 for all schedules at once",
   "Bounded model checking of the id generator: all sequentially consistent schedules of k x m requests and all initial used sets within the bounds are covered by a single solver query per configuration, with a completion witness against vacuity.",
-  level_note="Trusted: rustc MIR semantics, z3, sequential consistency as the memory model (weak-memory reorderings are outside the claim), the bit-set model of the `available` bitmap; rayon's scheduling of whole trees and the hand-written Sync impls are not decidable here.",
+  level_note="Trusted: rustc MIR semantics, z3, sequential consistency as the memory model (weak-memory reorderings are outside the solver's claim; counterexamples are replayed natively under loom, which does explore them), the bit-set model of the `available` bitmap; rayon's scheduling of whole trees and the hand-written Sync impls are not decidable here.",
   stubs_and_models=["atomics in event mode (read / write / rmw events with symbolic timestamps)", "RoaringBitmap = 16-bit bit-set"],
   functions_encoded=["ConcurrentNodeIds::new", "ConcurrentNodeIds::next", "Writer::used_tree_node (Kani, initial state)"],
   bounds={"threads x calls": "2x1, 2x2 (quick); 3x1, 2x3, 3x2 (thorough)", "ids": "16"},
